@@ -94,6 +94,7 @@ type (
 	TimeV struct {
 		Sec   *Term // unix seconds (64-bit)
 		Local bool
+		Zone  string // "" = the process's local zone, "utc"
 	}
 )
 
